@@ -54,12 +54,18 @@ func Register(key string, itf *Itf) { registry[key] = itf }
 
 // Act, Op, Scenario mirror the export of GenIdlRpc.
 type Act struct {
-	Kind string        `json:"kind"`
-	ID   int           `json:"id"`
-	Name string        `json:"name"`
-	Cls  string        `json:"cls"`
-	Np   int           `json:"np"`
-	Void bool          `json:"void"`
+	Kind string `json:"kind"`
+	ID   int    `json:"id"`
+	Name string `json:"name"`
+	Cls  string `json:"cls"`
+	Np   int    `json:"np"`
+	Void bool   `json:"void"`
+	// Go is the Go name the generators give the action (IdlRpc!GoName; first
+	// letter still lower case), Grp its overload group, Psig its parameter
+	// signature
+	Go   string        `json:"go,omitempty"`
+	Grp  string        `json:"grp,omitempty"`
+	Psig string        `json:"psig,omitempty"`
 	Init []interface{} `json:"init"`
 	// the references inside the initial value of a property (hs: the
 	// implementation's handles)
@@ -99,6 +105,10 @@ type Op struct {
 	Robjs []Leaf `json:"robjs,omitempty"`
 	Exec  int    `json:"exec,omitempty"`
 	Dev   string `json:"dev,omitempty"`
+	// Ran: the uid of the method the object must execute for a call (the
+	// overload the proxy method denotes), RanGo its Go name
+	Ran   int    `json:"ran,omitempty"`
+	RanGo string `json:"rango,omitempty"`
 }
 
 type Scenario struct {
@@ -151,12 +161,150 @@ var strs = map[string]string{"s_empty": "", "s_a": "a", "s_utf8": "héllo, wörl
 
 var valueType = reflect.TypeOf((*value.Value)(nil)).Elem()
 
+// encodeTree is the harness's own statement of the wire layout: the bytes
+// of the abstract value a of the type tree t (IdlRpc / SignatureOps type
+// trees: sc, list, map, tuple, struct), written without any code of the
+// repository.  It gives the content of dynamic values that hold composites.
+func encodeTree(t map[string]interface{}, a interface{}, w *bytes.Buffer) (err error) {
+	defer func() {
+		if r := recover(); r != nil {
+			err = fmt.Errorf("encode %v by %v: %v", a, t["k"], r)
+		}
+	}()
+	le := func(n uint64, size int) {
+		for i := 0; i < size; i++ {
+			w.WriteByte(byte(n >> (8 * uint(i))))
+		}
+	}
+	sub := func(key string) map[string]interface{} { return t[key].(map[string]interface{}) }
+	switch t["k"].(string) {
+	case "sc":
+		c := t["c"].(string)
+		switch c {
+		case "c", "w", "i", "l":
+			n, ok := signed[a.(string)]
+			if !ok {
+				return fmt.Errorf("unknown number %v", a)
+			}
+			le(uint64(n), map[string]int{"c": 1, "w": 2, "i": 4, "l": 8}[c])
+		case "C", "W", "I", "L":
+			n, ok := unsigned[a.(string)]
+			if !ok {
+				return fmt.Errorf("unknown number %v", a)
+			}
+			le(n, map[string]int{"C": 1, "W": 2, "I": 4, "L": 8}[c])
+		case "f":
+			f, ok := floats[a.(string)]
+			if !ok {
+				return fmt.Errorf("unknown float %v", a)
+			}
+			le(uint64(math.Float32bits(float32(f))), 4)
+		case "d":
+			f, ok := floats[a.(string)]
+			if !ok {
+				return fmt.Errorf("unknown float %v", a)
+			}
+			le(math.Float64bits(f), 8)
+		case "b":
+			if a.(string) == "true" {
+				w.WriteByte(1)
+			} else {
+				w.WriteByte(0)
+			}
+		case "s":
+			str, ok := strs[a.(string)]
+			if !ok {
+				return fmt.Errorf("unknown string %v", a)
+			}
+			le(uint64(len(str)), 4)
+			w.WriteString(str)
+		default:
+			return fmt.Errorf("scalar %q inside a dynamic value", c)
+		}
+	case "list":
+		l := a.([]interface{})
+		le(uint64(len(l)), 4)
+		for _, x := range l {
+			if err := encodeTree(sub("e"), x, w); err != nil {
+				return err
+			}
+		}
+	case "map":
+		l := a.([]interface{})
+		le(uint64(len(l)), 4)
+		for _, p := range l {
+			kv := p.([]interface{})
+			if err := encodeTree(sub("key"), kv[0], w); err != nil {
+				return err
+			}
+			if err := encodeTree(sub("val"), kv[1], w); err != nil {
+				return err
+			}
+		}
+	case "tuple", "struct":
+		ms := t["ms"].([]interface{})
+		l := a.([]interface{})
+		if len(ms) != len(l) {
+			return fmt.Errorf("%d members, %d values", len(ms), len(l))
+		}
+		for i, m := range ms {
+			if err := encodeTree(m.(map[string]interface{}), l[i], w); err != nil {
+				return err
+			}
+		}
+	default:
+		return fmt.Errorf("type %v inside a dynamic value", t["k"])
+	}
+	return nil
+}
+
+// dynamicOf makes the dynamic value that holds the abstract value v of the
+// type tree t: the constructors of the value package for the basic types,
+// value.Opaque(signature, bytes) for everything else.
+func dynamicOf(sig string, t map[string]interface{}, v interface{}) (value.Value, error) {
+	if t["k"] == "sc" {
+		name, _ := v.(string)
+		switch t["c"] {
+		case "c":
+			return value.Int8(int8(signed[name])), nil
+		case "C":
+			return value.Uint8(uint8(unsigned[name])), nil
+		case "w":
+			return value.Int16(int16(signed[name])), nil
+		case "W":
+			return value.Uint16(uint16(unsigned[name])), nil
+		case "i":
+			return value.Int(int32(signed[name])), nil
+		case "I":
+			return value.Uint(uint32(unsigned[name])), nil
+		case "l":
+			return value.Long(signed[name]), nil
+		case "L":
+			return value.Ulong(unsigned[name]), nil
+		case "f":
+			return value.Float(float32(floats[name])), nil
+		case "b":
+			return value.Bool(name == "true"), nil
+		case "s":
+			return value.String(strs[name]), nil
+		}
+	}
+	var buf bytes.Buffer
+	if err := encodeTree(t, v, &buf); err != nil {
+		return nil, err
+	}
+	return value.Opaque(sig, buf.Bytes()), nil
+}
+
 func dynamic(a interface{}) (value.Value, error) {
 	m, ok := a.(map[string]interface{})
 	if !ok {
 		return nil, fmt.Errorf("dynamic value expected, have %v", a)
 	}
 	sig, _ := m["sig"].(string)
+	if t, ok := m["t"].(map[string]interface{}); ok { // a dynamic value that holds a value of a known type
+		return dynamicOf(sig, t, m["v"])
+	}
 	name, _ := m["v"].(string)
 	switch sig {
 	case "i":
@@ -768,6 +916,24 @@ func (h *Handler) Change(idx int, args []interface{}) error {
 	return nil
 }
 
+// describe names what the implementation observed.
+func describe(itf *Itf, seen []recorded) string {
+	if len(seen) == 0 {
+		return "nothing"
+	}
+	var l []string
+	for _, r := range seen {
+		name := "?"
+		if r.kind == "call" && r.idx < len(itf.ImplMethods) {
+			name = itf.ImplMethods[r.idx]
+		} else if r.kind == "change" && r.idx < len(itf.ImplChanges) {
+			name = itf.ImplChanges[r.idx]
+		}
+		l = append(l, fmt.Sprintf("%s %d %s%v", r.kind, r.idx, name, r.args))
+	}
+	return strings.Join(l, "; ")
+}
+
 func (h *Handler) take() []recorded {
 	h.mu.Lock()
 	defer h.mu.Unlock()
@@ -958,6 +1124,33 @@ func Run(sc *Scenario, report func(class, detail string, op interface{})) {
 		report("generated-api-shape/"+sc.Cls, fmt.Sprintf("interface has %d methods, %d signals, %d properties; generated: %+v", nm, ns, np, *itf), nil)
 		return
 	}
+	// overload groups: the generated names are the ones the specification derives (IdlRpc!GoName)
+	for _, kind := range []string{"method", "signal", "property"} {
+		for pos, a := range sc.sorted(kind) {
+			if a.Cls != "overload" || a.Go == "" {
+				continue
+			}
+			want := strings.Title(a.Go)
+			var have []string
+			switch kind {
+			case "method":
+				have = []string{itf.ImplMethods[pos], itf.ProxyMethods[pos]}
+			case "signal":
+				have = []string{strings.TrimPrefix(itf.HelperSignals[pos], "Signal"), strings.TrimPrefix(itf.ProxySubs[pos], "Subscribe")}
+			default:
+				have = []string{strings.TrimPrefix(itf.HelperUpdates[pos], "Update"), strings.TrimPrefix(itf.ProxyProps[pos][0], "Get"),
+					strings.TrimPrefix(itf.ProxyProps[pos][1], "Set"), strings.TrimPrefix(itf.ProxyProps[pos][2], "Subscribe"),
+					strings.TrimSuffix(strings.TrimPrefix(itf.ImplChanges[pos], "On"), "Change")}
+			}
+			for _, h := range have {
+				if h != want {
+					report("generated-api-shape/"+sc.Cls, fmt.Sprintf("%s %s (uid %d, parameters %s) of the overload group %q must be named %s, generated: %v",
+						kind, a.Name, a.ID, a.Psig, a.Grp, want, have), nil)
+					return
+				}
+			}
+		}
+	}
 	for _, n := range sc.Itfs {
 		if itf.Create[n] == nil || itf.Make[n] == nil {
 			report("generated-api-shape/"+sc.Cls, "the generated package lacks Create"+n+" / Make"+n, nil)
@@ -1089,11 +1282,23 @@ func Run(sc *Scenario, report func(class, detail string, op interface{})) {
 			if err != nil {
 				w.fail("call-fails/"+cls, err.Error())
 				h.take()
+				h.errs = nil
 				continue
 			}
 			seen := h.take()
-			if len(seen) != 1 || seen[0].kind != "call" || seen[0].idx != pos {
-				w.fail("call-reaches-wrong-method/"+cls, fmt.Sprintf("implementation observed %+v, expected method %d once", seen, pos))
+			// the method the object must execute: the overload the proxy method denotes
+			ranPos := pos
+			if op.Ran != 0 {
+				_, ranPos = sc.locate(op.Ran)
+			}
+			if len(seen) != 1 || seen[0].kind != "call" || seen[0].idx != ranPos {
+				w.fail("call-reaches-wrong-method/"+cls, fmt.Sprintf("implementation observed %s, expected method %d (%s, parameters %s) once; called through the proxy method %s",
+					describe(itf, seen), ranPos, strings.Title(op.RanGo), act.Psig, itf.ProxyMethods[pos]))
+				h.errs = nil
+				continue
+			}
+			if op.RanGo != "" && act.Cls == "overload" && itf.ImplMethods[seen[0].idx] != strings.Title(op.RanGo) {
+				w.fail("call-reaches-wrong-method/"+cls, fmt.Sprintf("implementation method %s ran, %s expected", itf.ImplMethods[seen[0].idx], strings.Title(op.RanGo)))
 				continue
 			}
 			if len(seen[0].args) != len(op.Args) {
